@@ -1,6 +1,7 @@
 package main
 
 import (
+	"path/filepath"
 	"encoding/json"
 	"flag"
 	"fmt"
@@ -33,6 +34,23 @@ func main() {
 	if err := json.Unmarshal(b, &cfg); err != nil {
 		fmt.Fprintln(os.Stderr, err)
 		os.Exit(2)
+	}
+	if len(cfg.PairOf) == 2 {
+		// a pair scenario: the first named configuration, plus the second as its peer in another namespace
+		var parts [2]sim.Config
+		for i, n := range cfg.PairOf {
+			pb, err := os.ReadFile(filepath.Join(filepath.Dir(*cfgPath), n+".json"))
+			if err == nil {
+				err = json.Unmarshal(pb, &parts[i])
+			}
+			if err != nil {
+				fmt.Fprintln(os.Stderr, err)
+				os.Exit(2)
+			}
+		}
+		name, ns := cfg.Name, cfg.PeerNS
+		cfg = parts[0]
+		cfg.Name, cfg.PeerNS, cfg.Peer = name, ns, &parts[1]
 	}
 	switch *mode {
 	case "linear":
